@@ -159,6 +159,17 @@ class C06(Check):
             ctx.violation(f"index-raises:{type(e).__name__}", case, repr(e))
             return
         self.validate_asm(asm, case, ctx, expect_extra={n: len(s) for n, s, _ in recs})
+        # the same records with the second one named like the first: either refused, or the cache AGP must still be valid
+        recs2 = [("r1", seq, w), ("r1", seq[::-1] + b"A", 2), ("r3", b"AC", 2)]
+        data2, _ = fm.make_fasta(recs2, eolb, fnl)
+        case2 = ["fasta-dup", seq.decode(), w, eol, fnl, buf]
+        ctx.cur = case2
+        try:
+            _idx2, asm2 = index_fasta_file(fm.MemPath(data2), buf)
+        except Exception:  # noqa: BLE001
+            ctx.count("duplicate_names_refused")
+        else:
+            self.validate_asm(asm2, case2, ctx, names_must_be_unique=True)
 
     def run_shard(self, shard, ctx):
         kind = shard[0]
@@ -220,7 +231,7 @@ class C06(Check):
             self.host_c05(spec, tuple(case[2]), ctx)
         elif kind == "remap":
             self.host_remap(pv.tuplify(case[1]), (case[2][0], pv.tuplify(case[2][1])), ctx)
-        elif kind == "fasta":
+        elif kind in ("fasta", "fasta-dup"):
             _, seq, w, eol, fnl, buf = case
             self.host_fasta(seq.encode(), w, eol, fnl, buf, ctx)
         elif kind == "cli":
